@@ -41,7 +41,8 @@ MANIFEST = {
             'publication per placed task.'
             '  Second session: a placed task the executor never hands over and never releases is reported here too (placed-task-never-unscheduled); executor endings include death by signal and faults after the spawn.'
             '  Third session: the application-level workload compares the node map with the resources still held after EVERY release (exact model), shares cores, uses NUMA nodes and hands back the slots of several grants in one call.'
-            '  Histories include tasks with invalid application-supplied slots: after their failure the node map still equals the initial one minus what is held.',
+            '  Histories include tasks with invalid application-supplied slots: after their failure the node map still equals the initial one minus what is held.'
+            '  Fourth session: node indexes with a gap (a backup node replaced an inaccessible one) in a quarter of the NodeList histories and a fifth of the multi-node scheduler layouts; release_slots / find_slots raising is a refutation (nodelist-release-raised).',
     'note': 'scheduler and executor are exercised separately here (their '
             'composition is exercised by C08/C05); executor histories use real '
             'threads and processes, reproduced statistically.'}
@@ -78,7 +79,14 @@ def nodelist_restore(rng, res):
              'lfs': 100, 'mem': 100}
         return rp.NumaNode(d, dmap) if numa else rp.Node(d)
 
-    nl = rp.NodeList(nodes=[mknode(i) for i in range(nn)]); nl.verify()
+    # node indexes as the pilot reports them: consecutive, or - when a backup
+    # node took the place of an inaccessible one - with a gap
+    idxs = list(range(nn))
+    if nn > 1 and rng.random() < 0.25:
+        idxs = sorted(rng.sample(range(nn + 2), nn))
+        if idxs != list(range(nn)):
+            res.count('nodelist_histories_with_index_gap')
+    nl = rp.NodeList(nodes=[mknode(i) for i in idxs]); nl.verify()
 
     def snapshot():
         return [{'index': n.index,
@@ -88,7 +96,8 @@ def nodelist_restore(rng, res):
 
     init = snapshot()
     live, ops = list(), list()      # live: [(rr, slots)]
-    case = {'cpn': cpn, 'gpn': gpn, 'nodes': nn, 'numa': numa, 'ops': ops}
+    case = {'cpn': cpn, 'gpn': gpn, 'nodes': nn, 'numa': numa, 'ops': ops,
+            'node_indexes': idxs}
 
     def expected():
         exp = [{'index': d['index'], 'cores': list(d['cores']),
@@ -96,7 +105,7 @@ def nodelist_restore(rng, res):
                for d in init]
         for rr, slots in live:
             for sl in slots:
-                e = exp[sl.node_index]
+                e = [x for x in exp if x['index'] == sl.node_index][0]
                 for c in sl.cores:
                     e['cores'][c.index] = round(e['cores'][c.index] +
                                                 rr.core_occupation, 9)
@@ -128,7 +137,14 @@ def nodelist_restore(rng, res):
             rng.shuffle(slots)
             res.count('nodelist_joint_releases')
         ops.append(['release', len(picked)])
-        nl.release_slots(slots)
+        try:
+            nl.release_slots(slots)
+        except Exception as e:
+            res.violation('nodelist-release-raised', 'release_slots of slots '
+                          'on nodes %s raised %r (node indexes %s)'
+                          % (sorted({sl.node_index for sl in slots}), e, idxs),
+                          case)
+            return False
         return compare('after release %d' % len(ops))
 
     for _ in range(rng.randint(3, 25)):
@@ -151,6 +167,12 @@ def nodelist_restore(rng, res):
             slots = nl.find_slots(rr, n_slots=n)
         except (ValueError, RuntimeError):
             continue
+        except IndexError as e:
+            res.violation('nodelist-find-raised', 'find_slots raised %r (node '
+                          'indexes %s)' % (e, idxs), case)
+            return case
+        if not slots and not compare('after a request which found nothing'):
+            return case
         if slots:
             live.append((rr, slots))
             if rr.core_occupation < 1:
